@@ -61,6 +61,7 @@ import (
 //   c15 cpause <c> / cresume <c>   the raw client stops / resumes reading from its socket
 //   c15 cpingraw <c>          websocket ping of a raw client
 //   c15 emitbig <c> <k> <v> <kb>   like emit, the message padded to <kb> KiB
+//   c15 emitbad <c> <k>       the service sends a value on channel k that protobuf.Encode refuses
 //   c15 creadopt <c> <ms>     clients m... (onet's client, no routine reads for them): one read with its own
 //                             options — ReadMessageWithOpts with a deadline <ms> ahead, or ReadMessage if 0
 //   c15 quiet <ms>            nothing happens for <ms> milliseconds
@@ -109,6 +110,20 @@ type C15Val struct {
 	V    int64
 	// Pad makes the message big (op emitbig)
 	Pad []byte
+	// Refuse: this value cannot be encoded (op emitbad)
+	Refuse bool
+}
+
+type c15valPlain C15Val
+
+// MarshalBinary is what protobuf.Encode uses for a *C15Val: the plain encoding of the struct, or —
+// for a value marked Refuse — an error, as for a value with a field the encoder has no rule for.
+func (v *C15Val) MarshalBinary() ([]byte, error) {
+	if v.Refuse {
+		return nil, errors.New("c15: a value that cannot be encoded")
+	}
+	p := c15valPlain(*v)
+	return protobuf.Encode(&p)
 }
 
 // C15Ping is a plain (non-streaming) request of the same service: other clients
@@ -552,7 +567,10 @@ func (e *c15env) do(tk []string) string {
 			c15cond.Wait()
 		}
 		return "ok"
-	case (len(tk) == 5 && tk[1] == "emit") || (len(tk) == 6 && tk[1] == "emitbig"):
+	case (len(tk) == 5 && tk[1] == "emit") || (len(tk) == 6 && tk[1] == "emitbig") || (len(tk) == 4 && tk[1] == "emitbad"):
+		if tk[1] == "emitbad" {
+			tk = append(append([]string{}, tk...), "0")
+		}
 		k, err1 := strconv.Atoi(tk[3])
 		v, err2 := strconv.Atoi(tk[4])
 		if err1 != nil || err2 != nil {
@@ -581,7 +599,7 @@ func (e *c15env) do(tk []string) string {
 			ch := st.ch
 			c15mu.Unlock()
 			select {
-			case ch <- &C15Val{Conn: string(c15tag(tk[2])), K: int64(k), V: int64(v), Pad: pad}:
+			case ch <- &C15Val{Conn: string(c15tag(tk[2])), K: int64(k), V: int64(v), Pad: pad, Refuse: tk[1] == "emitbad"}:
 			case <-time.After(c15wait):
 				r = "timeout"
 			}
@@ -993,6 +1011,13 @@ func c15oracle(cs *h.Case) {
 		}
 		if tk[1] == "creadopt" {
 			tk = []string{tk[0], "cread", tk[2]}
+		}
+		if tk[1] == "emitbad" {
+			// not a message of the stream; it must be taken off the service's hands all the same
+			if obs != "ok" {
+				cs.Fail("c15:service-blocked", fmt.Sprintf("op %d %q: no forwarder took the value (%s)", i, op, obs))
+			}
+			continue
 		}
 		blockedOK := strings.HasPrefix(cs.Class, "corpus:blocked-emit") && tk[1] == "emit" && c.held
 		switch tk[1] {
@@ -1464,6 +1489,31 @@ func (g *c15g) readOptions(c string, ms, rounds int) []string {
 	return append(ops, "c15 svcclose "+c+" 0", "c15 creadopt "+c+" 0", "c15 wstop "+c+" 0")
 }
 
+// the service emits a value that cannot be encoded: the forwarder of that channel ends. two = false: the
+// only channel — the stream ends with a normal close, the service is told at tear-down; two = true: the
+// stream goes on for the other channel, the first one is not served any more
+func (g *c15g) unencodable(c string, p int, two bool, census bool) []string {
+	ops := []string{"c15 open " + c + " fresh", "c15 wstart " + c + " 0"}
+	if two {
+		ops = append(ops, "c15 csend "+c+" fresh", "c15 wstart "+c+" 1")
+		ops = append(ops, g.values(c, 1, 1, 1)...)
+	}
+	ops = append(ops, g.values(c, 0, p, 1)...)
+	ops = append(ops, "c15 emitbad "+c+" 0", "c15 wexit "+c+" 1")
+	if two {
+		ops = append(ops, g.values(c, 1, 1+g.c.Rng.Intn(3), 1)...)
+		ops = append(ops, "c15 svcclose "+c+" 1")
+	}
+	ops = append(ops, "c15 cread "+c, "c15 wstop "+c+" 0", "c15 svcclose "+c+" 0")
+	if two {
+		ops = append(ops, "c15 wstop "+c+" 1")
+	}
+	if census {
+		ops = append(ops, "c15 census")
+	}
+	return ops
+}
+
 // withPings inserts plain requests of other clients of the same server at random places.
 func (g *c15g) withPings(ops []string, n int) []string {
 	for i := 0; i < n; i++ {
@@ -1575,6 +1625,9 @@ func c15genCases(c *h.Ctx, yield func(*h.Case)) {
 	emit("corpus:ping-while-writing", g.pingWhileWriting("b0", 5, 3072))
 	// seed C15r6-B: the client's read options are per read
 	emit("corpus:client-read-options", g.readOptions("m0", 2500, 1))
+	// a value the service emits that protobuf.Encode refuses (round 5 "still open", now modelled: Act.emitBad)
+	emit("corpus:unencodable-value", g.unencodable("s0", 2, false, true))
+	emit("corpus:unencodable-value", g.unencodable("s0", 1, true, true))
 	emit("corpus:nil-stop-channel", g.nilStop("s0", 1, 1, 0, "service", true))
 	emit("corpus:nil-stop-channel", g.nilStop("s0", 2, 2, 1, "drop", true))
 	emit("corpus:nil-stop-channel", g.nilStop("s0", 1, 1, 2, "garbage", true))
@@ -1611,6 +1664,9 @@ func c15genCases(c *h.Ctx, yield func(*h.Case)) {
 		emit("bad-first", g.badFirst("s0", []string{"garbage", "failing", "unregistered", "panics", "panicerr", "panicidx"}[r.Intn(6)]))
 		if it%3 == 1 {
 			emit("long-path", g.happy("l0", r.Intn(6), 1+r.Intn(3)))
+		}
+		if it%4 == 3 {
+			emit("unencodable-value", g.unencodable("s0", r.Intn(4), r.Intn(2) == 0, true))
 		}
 		if it%25 == 2 {
 			emit("ping-while-writing", g.pingWhileWriting("b0", 5+r.Intn(3), 2048+r.Intn(3)*1024))
